@@ -48,6 +48,15 @@ class LogicC05:
 
     raises = {}
 
+    # clauses guarded by a message kind are only evaluated in the configurations that admit that kind
+    clause_when = {
+        "req": lambda c: c.get("cmd") == 2,
+        "config": lambda c: c.get("cmd") == 3 and c.get("subs") in (1, None),
+        "time": lambda c: c.get("cmd") == 3 and c.get("subs") in (1, None),
+        "id-request": lambda c: c.get("cmd") == 3 and c.get("subs") in (1, None),
+        "gateway-ready": lambda c: c.get("cmd") == 3 and c.get("subs") in (1, None),
+    }
+
     ensures = {
         # a value request is answered with a set carrying the pending desired, else the latest reported value; else nothing
         "req": lambda old, self, data, result: not (accepted(self.protocol_version, data) and F(data)[2] == proto.REQ)
